@@ -485,3 +485,118 @@ Theorem minwrap_routes_both_ok :
 Proof. exact LinkWrapRel.minwrap_routes_both_ok. Qed.
 Print Assumptions minwrap_routes_both_ok.
 
+
+(* ---------- max_wrap_width(m) limits text lines to m columns beyond their prefixes (Proofs/MaxWrapBound.v): table-free trees, overflow off; pchain = largest total prefix width of a chain of nested blocks; m = 0 behaves as 1; the footnote list is wrapped at the width, not at m (body/foot split) ---------- *)
+From H2T Require Import Base Tagged Wrap Sub Css Dom Render Api CssParse Proofs.CssTotal Proofs.WrapInv Proofs.RenderWidth Proofs.Conserve Proofs.Footnotes Proofs.AnnBalance Proofs.RenderConserve Proofs.OptionRel Proofs.Compose Proofs.RenderTotal Proofs.FragStream Proofs.SimRel Proofs.Prune Proofs.OverflowBound Proofs.MaxWrapBound.
+Theorem c15_maxwrap_bound :
+  forall (d : deco) (mw : N) (o : ropts) (m width : N) (tree : rnode) (s : subr),
+       ol_prefix_monotone d ->
+       ol_prefix_sat d ->
+       o_allow_overflow o = false ->
+       o_footnotes o = false ->
+       wrap_width o = Some m ->
+       1 <= width ->
+       no_table tree = true ->
+       RenderWidth.tree_ok false 0 tree = true ->
+       render_tree d mw o width tree = Ok s ->
+       forall ls : list rline,
+       sub_into_lines s = Ok ls ->
+       forall r : rline, In r ls -> rline_width r <= N.min width (OverflowBound.pchain d tree + N.max m 1).
+Proof. exact MaxWrapBound.c15_maxwrap_bound. Qed.
+Print Assumptions c15_maxwrap_bound.
+
+Theorem c15_maxwrap_body_bound :
+  forall (d : deco) (mw : N) (o : ropts) (m : N) (fn : bool) (L width : N) (tree : rnode) (s : subr),
+       ol_prefix_monotone d ->
+       ol_prefix_sat d ->
+       o_allow_overflow o = false ->
+       wrap_width o = Some m ->
+       no_table tree = true ->
+       RenderWidth.tree_ok fn L tree = true ->
+       render_tree d mw o width tree = Ok s ->
+       forall ls : list rline,
+       sub_into_lines s = Ok ls ->
+       exists body foot : list rline,
+         ls = body ++ foot /\
+         (forall r : rline, In r body -> rline_width r <= OverflowBound.pchain d tree + N.max m 1) /\
+         (o_footnotes o = false -> foot = []).
+Proof. exact MaxWrapBound.c15_maxwrap_body_bound. Qed.
+Print Assumptions c15_maxwrap_body_bound.
+
+Theorem c15_maxwrap_lines_from_read :
+  forall (inline_styles : list (text * text) -> res (list styledecl))
+         (doc_rules : list node -> res (list ruleset)) (c : config) (doc : list node) 
+         (w m : N) (tree : rnode) (ls : list tline),
+       ol_prefix_monotone (c_deco c) ->
+       ol_prefix_sat (c_deco c) ->
+       c_overflow c = false ->
+       c_footnotes c = false ->
+       c_max_wrap c = Some m ->
+       to_render_tree inline_styles doc_rules c doc = Ok tree ->
+       no_table tree = true ->
+       RenderWidth.tree_ok false 0 tree = true ->
+       lines_from_read inline_styles doc_rules c doc w = Ok ls ->
+       forall l : tline,
+       In l ls -> tl_width_raw l <= N.min w (OverflowBound.pchain (c_deco c) tree + N.max m 1).
+Proof. exact MaxWrapBound.c15_maxwrap_lines_from_read. Qed.
+Print Assumptions c15_maxwrap_lines_from_read.
+
+Theorem c15_maxwrap_string_from_read :
+  forall (inline_styles : list (text * text) -> res (list styledecl))
+         (doc_rules : list node -> res (list ruleset)) (c : config) (doc : list node) 
+         (w m : N) (tree : rnode) (t : text),
+       ol_prefix_monotone (c_deco c) ->
+       ol_prefix_sat (c_deco c) ->
+       c_overflow c = false ->
+       c_footnotes c = false ->
+       c_max_wrap c = Some m ->
+       to_render_tree inline_styles doc_rules c doc = Ok tree ->
+       no_table tree = true ->
+       RenderWidth.tree_ok false 0 tree = true ->
+       string_from_read inline_styles doc_rules c doc w = Ok t ->
+       exists rls : list rline,
+         t = flat_map (fun l : rline => rline_string l ++ [newline_chr]) rls /\
+         (forall r : rline,
+          In r rls -> rline_width r <= N.min w (OverflowBound.pchain (c_deco c) tree + N.max m 1)).
+Proof. exact MaxWrapBound.c15_maxwrap_string_from_read. Qed.
+Print Assumptions c15_maxwrap_string_from_read.
+
+Theorem sub_renderer_bound :
+  forall (d : deco) (mw m : N) (fn : bool) (L : N),
+       ol_prefix_monotone d ->
+       ol_prefix_sat d ->
+       forall (cs : list rnode) (st : rstate) (tp : subr) (w : N) (st2 : rstate) (sub : subr) (st3 : rstate),
+       RenderWidth.st_inv fn L st ->
+       Forall (fun s : subr => wrap_width (sopts s) = Some m) (stack st) ->
+       top st = Ok tp ->
+       forallb no_table cs = true ->
+       forallb (RenderWidth.tree_ok fn L) cs = true ->
+       fold_left (fun (acc : res rstate) (c : rnode) => do s <- acc; render_node d mw c s) cs
+         (Ok (push_sub st (new_sub_renderer tp w))) = Ok st2 ->
+       pop_sub st2 = Ok (sub, st3) ->
+       forall ls : list rline,
+       sub_into_lines sub = Ok ls ->
+       forall r : rline,
+       In r ls -> rline_width r <= N.min w (maxN (map (OverflowBound.pchain d) cs) + N.max m 1).
+Proof. exact MaxWrapBound.sub_renderer_bound. Qed.
+Print Assumptions sub_renderer_bound.
+
+Theorem sub_renderer_bound_flat :
+  forall (d : deco) (mw m : N) (fn : bool) (L : N),
+       ol_prefix_monotone d ->
+       ol_prefix_sat d ->
+       forall (cs : list rnode) (st : rstate) (tp : subr) (w : N) (st2 : rstate) (sub : subr) (st3 : rstate),
+       RenderWidth.st_inv fn L st ->
+       Forall (fun s : subr => wrap_width (sopts s) = Some m) (stack st) ->
+       top st = Ok tp ->
+       forallb no_table cs = true ->
+       forallb (RenderWidth.tree_ok fn L) cs = true ->
+       maxN (map (OverflowBound.pchain d) cs) = 0 ->
+       fold_left (fun (acc : res rstate) (c : rnode) => do s <- acc; render_node d mw c s) cs
+         (Ok (push_sub st (new_sub_renderer tp w))) = Ok st2 ->
+       pop_sub st2 = Ok (sub, st3) ->
+       forall ls : list rline,
+       sub_into_lines sub = Ok ls -> forall r : rline, In r ls -> rline_width r <= N.min w (N.max m 1).
+Proof. exact MaxWrapBound.sub_renderer_bound_flat. Qed.
+Print Assumptions sub_renderer_bound_flat.
+
